@@ -758,3 +758,135 @@ Proof.
   intros H1 H2 E. pose proof (nq_roundtrip d1 H1) as R1. pose proof (nq_roundtrip d2 H2) as R2.
   rewrite E in R1. rewrite R1 in R2. injection R2 as ->. reflexivity.
 Qed.
+
+(* ------------------------------------------------------------------------------------------ *)
+(** * Other entry points: several calls, write_term / write_triple alone, generalised RDF      *)
+(* ------------------------------------------------------------------------------------------ *)
+
+Theorem nq_write_app a b : nq_write (a ++ b) = nq_write a ++ nq_write b.
+Proof. unfold nq_write. induction a as [|q a IH]; [reflexivity|]. cbn [app flat_map]. rewrite IH, app_assoc. reflexivity. Qed.
+Theorem nt_write_app a b : nt_write (a ++ b) = nt_write a ++ nt_write b.
+Proof. unfold nt_write. induction a as [|q a IH]; [reflexivity|]. cbn [app flat_map]. rewrite IH, app_assoc. reflexivity. Qed.
+
+Lemma nq_write_calls_acc calls : forall acc,
+  fold_left (fun acc qs => acc ++ nq_write qs) calls acc = acc ++ nq_write (concat calls).
+Proof.
+  induction calls as [|c calls IH]; intros acc; cbn [fold_left concat].
+  - rewrite app_nil_r. reflexivity.
+  - rewrite IH, nq_write_app, app_assoc. reflexivity.
+Qed.
+Lemma nt_write_calls_acc calls : forall acc,
+  fold_left (fun acc ts => acc ++ nt_write ts) calls acc = acc ++ nt_write (concat calls).
+Proof.
+  induction calls as [|c calls IH]; intros acc; cbn [fold_left concat].
+  - rewrite app_nil_r. reflexivity.
+  - rewrite IH, nt_write_app, app_assoc. reflexivity.
+Qed.
+(* serialising in several calls on one serialiser = serialising the concatenation in one call *)
+Theorem nq_write_calls_concat calls : nq_write_calls calls = nq_write (concat calls).
+Proof. unfold nq_write_calls. rewrite nq_write_calls_acc. reflexivity. Qed.
+Theorem nt_write_calls_concat calls : nt_write_calls calls = nt_write (concat calls).
+Proof. unfold nt_write_calls. rewrite nt_write_calls_acc. reflexivity. Qed.
+Lemma nt_of_concat calls : concat (map nt_of calls) = nt_of (concat calls).
+Proof.
+  unfold nt_of. induction calls as [|c calls IH]; [reflexivity|]. cbn [map concat]. rewrite IH, map_app. reflexivity.
+Qed.
+Theorem write_calls_ok_concat nq calls bytes :
+  write_calls_ok nq calls bytes
+  = if nq then write_ok (concat calls) bytes else nt_write_ok (concat calls) bytes.
+Proof.
+  unfold write_calls_ok, write_ok, nt_write_ok. destruct nq.
+  - rewrite nq_write_calls_concat. reflexivity.
+  - rewrite nt_write_calls_concat, nt_of_concat. reflexivity.
+Qed.
+
+(* the statement composed by hand from the public write_triple / write_term is the statement the
+   serialiser writes; a quoted triple is write_triple between "<<" and ">>" *)
+Theorem compose_quad_spec q : compose_quad q = nq_write_quad q.
+Proof. destruct q as [[[s p] o] [g|]]; cbn [compose_quad nq_write_quad]; rewrite <- ?app_assoc; reflexivity. Qed.
+Theorem write_term_triple s p o :
+  write_term (Triple s p o) = [60; 60] ++ write_triple s p o ++ [62; 62].
+Proof. reflexivity. Qed.
+
+(* ---- generalised RDF ---- *)
+Lemma good_var s : var_ok s = true -> forallb good s = true.
+Proof.
+  unfold var_ok, scalar_str. intros H. apply andb_true_iff in H as [H Hs]. apply andb_true_iff in H as [_ Hp].
+  clear -Hp Hs. induction s as [|c s IH]; [reflexivity|]. cbn [forallb] in *.
+  apply andb_true_iff in Hp as [Hc Hp]. apply andb_true_iff in Hs as [Sc Hs].
+  rewrite (IH Hp Hs), andb_true_r. unfold good. rewrite Sc, (pn_noeol c Hc). reflexivity.
+Qed.
+
+Lemma good_wt_gen : forall t, gwf t = true -> forallb good (wt t) = true.
+Proof.
+  induction t as [s|s|lex dt|lex tag|s IHs pr IHp o IHo|s]; intros H; cbn [gwf] in H; cbn [wt].
+  - cbn [forallb]. rewrite good_app, (good_iri s H). reflexivity.
+  - cbn [forallb]. rewrite (good_label s H). reflexivity.
+  - apply andb_true_iff in H as [Hl Hdt].
+    cbn [forallb]. rewrite good_app, (good_qs_cp lex Hl).
+    destruct (negb (str_eqb xsd_string dt)); [|reflexivity].
+    cbn [forallb]. rewrite good_app, (good_iri dt Hdt). reflexivity.
+  - apply andb_true_iff in H as [Hl Ht].
+    cbn [forallb]. rewrite good_app, (good_qs_cp lex Hl). cbn [forallb]. rewrite (good_langtag tag Ht). reflexivity.
+  - apply andb_true_iff in H as [H Ho]. apply andb_true_iff in H as [Hs Hp].
+    cbn [forallb]. rewrite good_app, (IHs Hs). cbn [forallb]. rewrite good_app, (IHp Hp).
+    cbn [forallb]. rewrite good_app, (IHo Ho). reflexivity.
+  - cbn [forallb]. rewrite (good_var s H). reflexivity.
+Qed.
+
+(* strict well-formedness at a position implies generalised well-formedness *)
+Theorem wf_at_gwf : forall t p, wf_at p t = true -> gwf t = true.
+Proof.
+  induction t as [s|s|lex dt|lex tag|s IHs pr IHp o IHo|s]; intros p H; cbn [wf_at] in H; cbn [gwf].
+  - exact H.
+  - apply andb_true_iff in H as [_ H]. exact H.
+  - apply andb_true_iff in H as [H Hdt]. apply andb_true_iff in H as [_ Hl]. rewrite Hl, Hdt. reflexivity.
+  - apply andb_true_iff in H as [H Ht]. apply andb_true_iff in H as [_ Hl]. rewrite Hl, Ht. reflexivity.
+  - apply andb_true_iff in H as [H Ho]. apply andb_true_iff in H as [H Hp]. apply andb_true_iff in H as [_ Hs].
+    rewrite (IHs _ Hs), (IHp _ Hp), (IHo _ Ho). reflexivity.
+  - discriminate.
+Qed.
+Theorem wf_quads_gwf qs : wf_quads qs = true -> gwf_quads qs = true.
+Proof.
+  unfold wf_quads, gwf_quads. induction qs as [|[[[s p] o] g] qs IH]; [reflexivity|]. cbn [forallb]. intros H.
+  apply andb_true_iff in H as [Hq Hqs]. rewrite (IH Hqs), andb_true_r.
+  cbn [wf_quad] in Hq. apply andb_true_iff in Hq as [Hq Hg]. apply andb_true_iff in Hq as [Hq Ho].
+  apply andb_true_iff in Hq as [Hs Hp]. cbn [gwf_quad].
+  rewrite (wf_at_gwf _ _ Hs), (wf_at_gwf _ _ Hp), (wf_at_gwf _ _ Ho).
+  destruct g as [t|]; [exact (wf_at_gwf _ _ Hg)|reflexivity].
+Qed.
+
+Lemma wq_body_gen s p o g : gwf_quad (s, p, o, g) = true ->
+  exists body, wq (s, p, o, g) = body ++ [10] /\ forallb good body = true.
+Proof.
+  intros Hwf. cbn [gwf_quad] in Hwf.
+  apply andb_true_iff in Hwf as [Hwf Hg]. apply andb_true_iff in Hwf as [Hwf Ho].
+  apply andb_true_iff in Hwf as [Hs Hp].
+  exists (wt s ++ 32 :: wt p ++ 32 :: wt o ++ match g with None => [46] | Some t => 32 :: wt t ++ [46] end).
+  split.
+  - cbn [wq]. destruct g; repeat (rewrite <- ?app_assoc; cbn [app]); reflexivity.
+  - rewrite good_app, (good_wt_gen s Hs). cbn [forallb]. rewrite good_app, (good_wt_gen p Hp).
+    cbn [forallb]. rewrite good_app, (good_wt_gen o Ho).
+    destruct g as [t|]; [|reflexivity]. cbn [forallb]. rewrite good_app, (good_wt_gen t Hg). reflexivity.
+Qed.
+
+(* one statement per line also for generalised quads (variables, literals as subjects, ...) *)
+Theorem gen_statement_is_one_line q : gwf_quad q = true ->
+  exists body, nq_write_quad q = body ++ [10] /\ count 10 body = 0%nat /\ count 13 body = 0%nat.
+Proof.
+  destruct q as [[[s p] o] g]. intros H. destruct (wq_body_gen s p o g H) as (body & E & Hb).
+  exists (utf8 body). split; [|split].
+  - pose proof (nq_write_utf8 [(s, p, o, g)]) as W. unfold nq_write, wdoc in W. cbn [flat_map] in W.
+    rewrite !app_nil_r in W. rewrite W, E, utf8_app. reflexivity.
+  - rewrite count_utf8 by lia. apply count_good; [reflexivity|assumption].
+  - rewrite count_utf8 by lia. apply count_good; [reflexivity|assumption].
+Qed.
+Theorem gen_one_line_per_quad qs : gwf_quads qs = true ->
+  count 10 (nq_write qs) = length qs /\ count 13 (nq_write qs) = 0%nat.
+Proof.
+  induction qs as [|q qs IH]; [split; reflexivity|]. cbn [gwf_quads forallb]. intros H.
+  apply andb_true_iff in H as [Hq Hqs]. destruct (IH Hqs) as [I1 I2].
+  destruct (gen_statement_is_one_line q Hq) as (body & E & B1 & B2).
+  change (nq_write (q :: qs)) with (nq_write_quad q ++ nq_write qs).
+  rewrite E, !count_app, I1, I2, B1, B2. split; reflexivity.
+Qed.
